@@ -118,6 +118,9 @@ func effectSignature(p *packages.Package, body *ast.BlockStmt) string {
 	return sig
 }
 
+// pureLibraryPredicates: library functions that only read their arguments (usable inside a deletion predicate).
+var pureLibraryPredicates = map[string]bool{"slices.Contains": true, "slices.Index": true, "strings.Contains": true, "strings.HasPrefix": true, "strings.HasSuffix": true, "strings.EqualFold": true}
+
 // loopExits: the ways the body leaves the loop before the last element was visited (which elements were visited by
 // then depends on the visiting order): `break` of this loop, `return`, `goto`. A break that ends an inner loop, switch
 // or select and exits of function literals are not exits of the loop.
@@ -228,7 +231,7 @@ func effectSignatureD(p *packages.Package, body *ast.BlockStmt, expanding map[*a
 						ast.Inspect(fl.Body, func(m ast.Node) bool {
 							switch y := m.(type) {
 							case *ast.CallExpr:
-								if n := callName(y); n != "len" && n != "cap" {
+								if n := callName(y); n != "len" && n != "cap" && !pureLibraryPredicates[n] {
 									pureLit = false
 								}
 							case *ast.AssignStmt:
